@@ -63,6 +63,23 @@ inline Poly prism(int n, ld r, ld h) {
     }
     return p;
 }
+// prism over an arbitrary convex polygon given counter-clockwise in the xy plane (sharp wedges: very acute polygon angles)
+inline Poly prism_over(const std::vector<std::pair<ld, ld>>& outline, ld h) {
+    Poly p;
+    const int n = (int)outline.size();
+    for (int i = 0; i < n; i++) addp(p, outline[i].first, outline[i].second, h);
+    for (int i = 0; i < n; i++) addp(p, outline[i].first, outline[i].second, -h);
+    std::vector<unsigned> top, bot;
+    for (int i = 0; i < n; i++) top.push_back(i), bot.push_back(n + (n - 1 - i));
+    p.faces.push_back(top);
+    p.faces.push_back(bot);
+    for (int i = 0; i < n; i++) {
+        unsigned j = (i + 1) % n;
+        p.faces.push_back({(unsigned)i, (unsigned)(n + i), (unsigned)(n + j), j});
+    }
+    return p;
+}
+
 // L-shaped prism built from convex faces only (the two L faces are split into rectangles)
 inline Poly lprism(ld a, ld h) {
     Poly p;
